@@ -479,7 +479,7 @@ def _gen_regen(ctx):
 
 # Fermat / freshman / Frobenius = p^k-th power / Euler for Z_p and the towers over it (coq/NumTh): discharges the
 # frobenius_is_pow_partial premises for towers over FpOps p
-EXTRA_PROP_FILES = ['NumTh']
+EXTRA_PROP_FILES = ['NumTh', 'C02Norm']
 
 # T-field translator, table 3 (lib/xlate_field.py --table3): per-curve hook overrides (Fp2/Fp3/Fp6 non-residue hooks,
 # mul_by_a), tower helpers (norm, cyclotomic inverse, mul_by_fp*, Frobenius coefficient hooks), SubAssign / cofactor code,
